@@ -167,8 +167,13 @@ def _kinds(d):
             t = ['op', '&', ['ref', 'B%d' % d.int(1, i - 1)], ['str', '|']]
         elif k == 8:
             t = ['call', 'IF', [ref(), ['str', 'y'], ref()]]
-        else:
+        elif d.pick(2):
             t = ['call', 'LEN', [ref()]]
+        else:
+            # a formula that refers to no cell at all
+            t = d.choice([['op', '+', ['num', '1'], ['num', '2']],
+                          ['op', '&', ['str', 'a'], ['str', 'b']],
+                          ['op', '<', ['num', '1'], ['num', '2']]])
         m['formulas']['Sheet1!B%d' % i] = t
     m['order'] = list(m['formulas'])
     return m
@@ -207,7 +212,13 @@ def snapshot(model):
         if c.formula is None:
             cells[a] = ('const', norm(c.value))
         else:
-            cells[a] = ('formula', c.formula.formula)
+            # the formula object as a user sees it: text, the flag that says
+            # whether it is to be evaluated, the addresses it refers to
+            f = c.formula
+            cells[a] = ('formula', f.formula, getattr(f, 'evaluate', None),
+                        sorted(str(t) for t in (getattr(f, 'terms', None)
+                                                or [])),
+                        getattr(f, 'sheet_name', None))
     names = {}
     for n, d in model.defined_names.items():
         names[n] = getattr(d, 'address', None) if not isinstance(
